@@ -35,6 +35,51 @@ CLAIMED['C14'] = {
     'technique': 'contract-based deductive verification (Verus) of extracted real code; bounded native contract execution for iterators and as replay',
 }
 
+CLAIMED['C08'] = {
+    'category': 'proof',
+    'text': 'Verus proves on the real text of prefix_tree.rs, for every arity 0..9 and for new/insert/contains/remove/is_empty/clear/get/get_mut/'
+            'union/difference/insert_restriction/remove_restriction, that the container equals the corresponding operation on a mathematical set '
+            'of tuples and preserves the invariant "inner map well-formed, every subtree well-formed, no key maps to an empty subtree" (on which '
+            'is_empty and prefix lookups rely); the entry API and set.rs are proved in the same run on top of the WBTreeMap core contracts. '
+            'Iteration order/duplicates, prefix iteration and mapped cannot be put under a contract (iterator adapters) and are covered by the '
+            'bounded native sweep against BTreeSet, reported separately.',
+    'design_ref': '§5.3, §6 C08',
+    'note': 'Rests on the WBTreeMap core contracts (assumed here, discharged in C14 where listed), structural Clone, pure callbacks. '
+            'Bounded part: coverage.bounded_parts.',
+    'technique': 'contract-based deductive verification (Verus) of extracted real code on top of callee contracts; bounded native contract execution for iterators',
+}
+
+CLAIMED['C16'] = {
+    'category': 'exploration',
+    'text': 'Bounded: the real to_semi_naive and sort_premise (files included from /repo) are run on every premise of length <= 5 (quick) / 6 (thorough) over a pool '
+            'of 8 atoms and their executable contracts are checked, including the property itself on the emitted family (for every new/old labelling exactly '
+            'one sorted sub-rule accepts iff some atom is new). Neither Verus (iterator pipelines, format!) nor Kani (43 GB on 3 atoms) can take these functions. '
+            'Separately, Verus proves the counting statement for ALL premise lengths over the age matrix the contract prescribes (unit SNL); that lemma is not '
+            'a proof about the code and the check is therefore claimed as exploration.',
+    'design_ref': '§5.5, §6 C16',
+    'note': 'Bounded stand-in, never counted as proved. Not covered: the step from ages to index fields (needs a real Eqlog), the implicit functionality rule '
+            '(shape covered by a lemma only). eqlog_eqlog is shimmed; itertools is the real crate.',
+    'technique': 'bounded native execution of executable contracts on the real functions + a Verus lemma over the contract (labelled bounded)',
+}
+CLAIMED['C18'] = {
+    'category': 'exploration',
+    'text': 'Bounded only: the real morphism_toposort on real PrefixTrees for every multigraph with <= 3 objects and <= 3 (quick) / 4 (thorough) morphisms x every '
+            'new/old split of the three tables, against a DFS oracle and the order/contents contract. The function is one body of chain/map/collect over BTreeMap and '
+            'VecDeque that Verus rejects and Kani did not finish on a one-morphism instance.',
+    'design_ref': '§5.5, §6 C18',
+    'note': 'Bounded stand-in, never counted as proved. Split independence is read as independence of Ok/Err and of the set of returned morphisms (see evidence assumptions).',
+    'technique': 'bounded native execution of an executable contract on the real function (labelled bounded)',
+}
+CLAIMED['C11'] = {
+    'category': 'exploration',
+    'text': 'Bounded and partial: the real diagnostic renderer (source_display.rs, Location::intersect and whipe_comments cut from their files) is run on every text of <= 5 '
+            '(quick) / 6 (thorough) symbols over {a, space, /, LF, CRLF, e-acute} x every location the parse-error conversion can produce; it must not panic, must '
+            'name the line containing the position and print only complete input lines. The parser and the semantic passes are not covered.',
+    'design_ref': '§5.5, §6 C11',
+    'note': 'Bounded stand-in, never counted as proved; str/format! code is outside Verus. Found F4 (fixed in bbcda61).',
+    'technique': 'bounded native execution of an executable contract on the real functions (labelled bounded)',
+}
+
 NOT_APPLICABLE = {
     'C01': 'postcondition of the generated close_until loop and rule functions (extern "Rust", runtime iterators, string-templated generator): no function on that path can carry a contract Verus or Kani accepts (DESIGN §6)',
     'C02': 'needs the denotation of generated rule functions and define_*; not expressible as a contract within reach (DESIGN §6)',
@@ -51,10 +96,6 @@ NOT_APPLICABLE = {
     'C20': 'hyperproperty over runs of generated code and iterators that are not under contract',
     # not yet built (will move to CLAIMED as units land)
     'C04': 'not built yet in this round (unit GEN pending)',
-    'C08': 'not built yet in this round (unit PT pending)',
-    'C16': 'not built yet in this round (unit SN pending)',
-    'C18': 'not built yet in this round (unit TS pending)',
-    'C11': 'not built yet in this round (unit SD pending)',
 }
 
 
